@@ -80,7 +80,8 @@ def cell_specs(draw, tier):
     return {"key": draw(keys), "calc": draw(st.sampled_from(NOAUX + TEMPL + ["wien2k", "fleur", "crystal"])), "natom": draw(st.integers(1, 6)),
             "nspecies": draw(st.integers(1, 3)), "interleaved": draw(st.booleans()), "outside": draw(st.sampled_from([False, False, True, "edge"])),
             "size": draw(st.sampled_from([4.0, 4.0, 12.0, 60.0, 150.0])), "shear": draw(st.sampled_from([0.0, 0.15, 0.4])),
-            "disp": draw(st.booleans())}
+            "disp": draw(st.booleans()), "elk_scale": draw(st.sampled_from(["none", "scale", "scale123"])),
+            "pwmat_moments": draw(st.sampled_from(["none", "collinear", "noncollinear"]))}
 
 
 def make_cell(spec):
@@ -175,7 +176,13 @@ def run_structure(spec):
 
     calc = spec["calc"]
     cell = make_cell(spec)
+    if calc == "pwmat" and spec.get("pwmat_moments", "none") != "none":
+        # the PWmat writer adds a 'magnetic' / 'magnetic_xyz' section after the positions: the structure read back is still this cell
+        mrng = rng_from(spec["key"] + 3)
+        cell.magnetic_moments = np.round(mrng.normal(size=len(cell)), 3) if spec["pwmat_moments"] == "collinear" else np.round(mrng.normal(size=(len(cell), 3)), 3)
     classes = ["calc:" + calc, "size:%g" % spec["size"], "interleaved" if spec["interleaved"] else "grouped", ("outside_edge" if spec["outside"] == "edge" else "outside") if spec["outside"] else "inside"]
+    if calc == "pwmat":
+        classes.append("pwmat_moments:" + spec.get("pwmat_moments", "none"))
     with TmpCwd():
         try:
             generated_w2k = calc == "wien2k" and spec["key"] % 4 != 0
@@ -213,7 +220,14 @@ def run_structure(spec):
                 info = ("generated.struct", [781] * len(cell), [1e-4] * len(cell), [2.0] * len(cell))
                 classes.append("generated_cell")
             if calc in T.TEMPLATES:
-                open("template", "w").write(T.TEMPLATES[calc](cell))
+                if calc == "elk" and spec.get("elk_scale", "none") != "none":
+                    # a user file with the documented scale / scale1-3 keywords (lattice vectors divided accordingly: the same crystal)
+                    sc_ = 1.0 + (spec["key"] % 97) / 10.0
+                    scale = sc_ if spec["elk_scale"] == "scale" else [sc_, 1.0 / sc_, 2.0 * sc_]
+                    open("template", "w").write(T.elk_template(cell, scale=scale))
+                    classes.append("elk_scale:" + spec["elk_scale"])
+                else:
+                    open("template", "w").write(T.TEMPLATES[calc](cell))
                 c1, info = read_crystal_structure("template", interface_mode=calc)
                 err = same_crystal(cell, c1, allow_grouping=calc in GROUPING)
                 if err:
